@@ -12,11 +12,18 @@ loader.exec_module(check_mod)
 import units, gen, verus_run
 p = os.path.join(VERIF, "contracts", "trust_allow.json")
 allow = json.load(open(p)) if os.path.exists(p) else {}
+pp = os.path.join(VERIF, "contracts", "stub_pins.json")
+pins = json.load(open(pp)) if os.path.exists(pp) else {}
 for u in (sys.argv[1:] or list(units.UNITS)):
-    gen.generate(units.UNITS[u], verus_run.GEN_DIR)
+    meta = gen.generate(units.UNITS[u], verus_run.GEN_DIR)
+    for f in meta["functions"]:
+        if f.get("stub_sha"):
+            pins["%s::%s" % (f["file"], f["path"])] = f["stub_sha"]
     found, outside = check_mod.trust_scan(u)
     if outside:
         print("WARNING trusted constructs outside the prelude in", u, outside)
     allow[u] = found
     print(u, found)
 json.dump(allow, open(p, "w"), indent=1, sort_keys=True)
+json.dump(pins, open(pp, "w"), indent=1, sort_keys=True)
+print("stub pins:", pins)
